@@ -24,7 +24,7 @@ USERS = {"diana": {"name": "Diana", "email": "diana@example.org", "email_verifie
          "bob": {"name": "Bob", "email": "bob@example.org", "email_verified": False}}
 CLIAUTH = ["client_secret_post", "client_secret_basic", "client_secret_jwt", "private_key_jwt"]
 
-def make_op(jwt_tokens=False, extra=None, user="diana"):
+def make_op(jwt_tokens=False, extra=None, user="diana", more_endpoints=None):
     tha = {
         "code": {"lifetime": 600, "kwargs": {"crypt_conf": {"kwargs": {"password": "0987654321abcdefghijklmnop...---", "salt": "abcdefghijklmnop", "iterations": 1}}}},
         "token": {"lifetime": 3600, "kwargs": {"crypt_conf": {"kwargs": {"password": "1987654321abcdefghijklmnop...---", "salt": "abcdefghijklmnop", "iterations": 1}}}},
@@ -60,6 +60,8 @@ def make_op(jwt_tokens=False, extra=None, user="diana"):
         "session_params": {"encrypter": {"kwargs": {"password": "3987654321abcdefghijklmnop...---", "salt": "abcdefghijklmnop", "iterations": 1}}},
         "cookie_handler": {"class": CookieHandler, "kwargs": {"sign_key": "ghsNKDDLshZTPn974nOsIGhedULrsqnsGoBFBLwUKuJhE2ch", "name": {"session": "oidc_op", "register": "oidc_op_reg", "session_management": "oidc_op_sman"}}},
     }
+    if more_endpoints:
+        conf["endpoint"].update(more_endpoints)
     if extra:
         conf.update(extra)
     server = Server(OPConfiguration(conf=conf, base_path=BASEDIR), cwd=BASEDIR)
